@@ -117,9 +117,9 @@ func (c *tcase) paramMode(n string) string {
 // orders of magnitude above the normal run time of these programs (a few ms), and only a
 // second timeout is reported as non-termination.
 func runCase(c *tcase) verdict {
-	v := runCaseT(c, 3*time.Second)
+	v := runCaseT(c, 2*time.Second)
 	if v.hang {
-		v = runCaseT(c, 40*time.Second)
+		v = runCaseT(c, 30*time.Second)
 	}
 	return v
 }
